@@ -25,6 +25,9 @@ CLAIMED = {
  'C11': (TV, 'relational translation validation: free-time NLP with the horizon bound to c vs the real fixed-time NLP, row multisets and objective proven equal by z3',
          'For every enumerated model/method/grid and {T, t0, both} free: the real free-time transcription with the horizon variable(s) bound to rational c (at translation time, so all other variables stay universally quantified) has the same complete row multiset and objective as the real transcription of the OCP declared with the numbers; the only extra row is T>=0; value(T|t0) are plain decision variables; their starting values equal the guesses; starting points agree on shared variables (ground).',
          'Variables of the two transcriptions correspond by creation order; rational tables/partitions only (symbolic-T agreement with the reference is C01/C02/C04).', '3/C11'),
+ 'C09': (TV, 'parametric NLP vs reference with symbolic parameter entries (z3, all values at once) + relational inlined-constants comparison + tagged routing',
+         'For every enumerated model with global/per-interval/control+/matrix/horizon parameters: (i) complete row bijection and objective equality against the reference in which every parameter entry is a symbol, so all parameter values are covered at once; named entries are distinct plain NLP parameters; (ii) tagged-value routing of set_value into opti.p (column k <-> interval k, extra column <-> final node, matrix layout) read back through the named quantities (ground); (iii) two real transcriptions - parameters bound to their values vs values written as constants - have equal rows/objective for all x and equal starting points; (iv) set_value call orders relative to transcription: final opti.p and NLP equal those of a fresh OCP.',
+         'Values travel through CasADi\'s numeric store (assumed value-independent; checked with tagged values). Variables correspond by creation order.', '3/C09'),
 }
 NA = {p: 'check not built yet in this round (see DESIGN.md section 3 for the plan)' for p in
       ['C02','C03','C04','C05','C06','C07','C08','C09','C10','C11','C12','C13','C14','C15','C16','C17','C18','C19']}
